@@ -416,6 +416,16 @@ def override_scripts():
     vol = [("reg", c) for c in REG[:5]] + volume_type + [reg("AddCategory", "volume", "volume"), reg("AddCategory", "tank"), reg("AddUnit", "volume", "litre")]
     asks = [(k, "tank", 5.0, u, "m3", "volume") for u in ("L", "m3", "Mcf") for k in ("obj.GetValidUnits", "quantity.GetValidUnits", "db.GetValidUnits", "Scalar(c,x,u)", "CheckCategoryUnit")]
     scripts.append(vol + [("query", q) for q in asks] + [("query", q) for q in asks])
+    # a symbol that *contains* a legacy spelling ('1000ft3/d' reads as 'Mcf/d', 'lbmole/ft3' as 'lbmol/ft3') is asked about
+    # while it is no unit, then registered as a unit of its own, then asked about again
+    for base_u, cur, leg in (("m3/d", "Mcf/d", "1000ft3/d"), ("mol/m3", "lbmol/ft3", "lbmole/ft3")):
+        rate = [("reg", c) for c in REG[:5]] + [("reg", ("AddUnitBase", ("rate", "base rate", base_u), {})), ("reg", ("AddUnit", ("rate", "current spelling", cur, "%f/28.316846592", "%f*28.316846592"), {})),
+                                                 ("reg", ("AddCategory", ("rate", "rate"), {}))]  # fmt: skip
+        asks = [(k, "rate", x, leg, base_u, "rate") for k in ("Scalar(x,u)", "ObtainQuantity(u)", "Scalar(c,x,u)", "GetValue", "ObtainQuantity(u,None,caption)", "ObtainQuantity(u,c,caption)", "GetDefaultCategory", "db.Convert",
+                                                               "CheckCategoryUnit", "Array.GetValues", "FractionScalar", "CreateCopy(unit)", "derived request (tuple pairs)", "mul", "compare") for x in (5.0,)]  # fmt: skip
+        own = ("reg", ("AddUnit", ("rate", "the old symbol as a unit of its own", leg, "%f/2.0", "%f*2.0"), {}))
+        scripts.append(rate + [("query", q) for q in asks] + [own] + [("query", q) for q in asks])
+        scripts.append(rate + [("query", q) for q in asks[:2]] + [own] + [("query", q) for q in reversed(asks)])
     # tuple-pair requests first, arithmetic afterwards (and the other way round)
     for first, second in (("derived request (tuple pairs)", "arithmetic on a composition"), ("derived request (list overload, tuple items)", "arithmetic on a composition"), ("arithmetic on a composition", "derived request (tuple pairs)")):
         for cat, u in (("length", "m"), ("length", "cm"), ("depth", "m")):
